@@ -63,8 +63,9 @@ def native_confirm(prop, lemma, scr):
             continue
         if not built:
             subprocess.call(["rsync", "-a", "--delete", "--exclude", "/target", "--exclude", "/.git", xv.REPO + "/", tree + "/"])
-            if os.path.isdir(os.path.join(xv.REPO, "target")) and not os.path.isdir(os.path.join(tree, "target")):
-                subprocess.call(["cp", "-a", os.path.join(xv.REPO, "target"), os.path.join(tree, "target")])
+            seed_t = os.path.join(xv.REPO, "target") if os.path.isdir(os.path.join(xv.REPO, "target")) else "/repo/target"
+            if os.path.isdir(seed_t) and not os.path.isdir(os.path.join(tree, "target")):
+                subprocess.call(["cp", "-a", seed_t, os.path.join(tree, "target")])
             b = subprocess.run(["cargo", "build", "--offline", "-q"], cwd=tree, env=xv.ENV, capture_output=True, text=True)
             if b.returncode != 0:
                 return out
